@@ -57,7 +57,7 @@ CfgOf(c) == [name |-> c.name, nlevels |-> c.nlevels,
                              variant |-> c.levels[i].variant, cls |-> c.levels[i].cls]],
              limit |-> c.limit, hib |-> c.hib, gsc |-> c.gsc, gscn |-> c.gscn, gscw |-> c.gscw,
              max |-> c.max, sprout |-> c.sprout, generator |-> c.generator, haslocal |-> c.haslocal, cutoff |-> c.cutoff,
-             idlecheck |-> c.idlecheck, manual |-> c.manual, localmethod |-> IF c.sprout = "nbc_local" THEN 1 ELSE 0]
+             idlecheck |-> c.idlecheck, manual |-> c.manual, cache |-> c.cache, localmethod |-> IF c.sprout = "nbc_local" THEN 1 ELSE 0]
 
 -----------------------------------------------------------------------------
 (* Pre: model steps that precede the observation point.  Returns [st, errs] *)
@@ -69,7 +69,7 @@ Advance(s, B, target, errs) ==
     IF s.pc # "meta" \/ s.cur # NoDeme \/ s.queue = <<>> THEN R(s, errs)
     ELSE LET h == Head(s.queue) IN
          IF h = target THEN R(s, errs)
-         ELSE IF Eng(s, h) = "LOCAL" /\ (BatchCalls(B, h) > 0 \/ s.cfg.cutoff = 1)
+         ELSE IF Eng(s, h) = "LOCAL" /\ (BatchCalls(B, h) > 0 \/ s.cfg.cutoff = 1 \/ s.cfg.cache = 1)
               THEN Advance(DoLocalRun(s, h, BatchCalls(B, h)), B, target, errs)
               ELSE R(s, errs)      \* an awake deme that did not run: left to C06_SteppedExactlyOnce on the snapshot
 
@@ -155,7 +155,9 @@ SnapLevels(sn) == sn.levels
 Compare(s, sn) ==
     LET ids == SnapIds(sn)
         common == ids \cap Ids(s)
-        counted == sn.refused = 0
+        \* reported counters = objective invocations only while no budget wrapper refuses and no memoising problem
+        \* (FunctionProblem(use_cache=True)) can answer from its cache
+        counted == sn.refused = 0 /\ s.cfg.cache = 0
     IN  (IF ids \ Ids(s) # {} THEN {IF s.gscSeen THEN "C05_NoSproutAfterGsc" ELSE "C07_UnexpectedDeme"} ELSE {})
    \cup (IF ids \cap s.ban # {} THEN {"C05_NoSproutAfterGsc"} ELSE {})
    \cup (IF Ids(s) \ ids # {} THEN {"C07_DemeVanished"} ELSE {})
@@ -204,7 +206,7 @@ SumSeq(q) == FoldSeq(LAMBDA x, acc : acc + x, 0, q)
 SnapClauses(s, sn) ==
     LET ids == SnapIds(sn) IN
         (IF sn.tev # FoldSeq(LAMBDA r, acc : acc + r.ev, 0, sn.demes) THEN {"C03_TreeEqualsSumOfDemes"} ELSE {})
-   \cup (IF sn.refused = 0 /\ \E lv \in DOMAIN sn.lcalls :
+   \cup (IF sn.refused = 0 /\ s.cfg.cache = 0 /\ \E lv \in DOMAIN sn.lcalls :
               sn.lcalls[lv] # FoldSeq(LAMBDA r, acc : IF r.lix = lv - 1 THEN acc + r.ev ELSE acc, 0, sn.demes)
          THEN {"C03_LevelEqualsCalls"} ELSE {})
    \cup (IF \E i \in DOMAIN sn.demes : sn.demes[i].lvl # sn.demes[i].lix THEN {"C07_Structure"} ELSE {})
@@ -381,7 +383,7 @@ TreeBestClauses(s, m2, sn, boundary) ==
     LET mins == {m2.d[d].minr : d \in {x \in DOMAIN m2.d : m2.d[x].minr # -1}}
         tmin == IF mins = {} THEN -1 ELSE Min(mins)
         cands == UNION {m2.d[d].bestset : d \in {x \in DOMAIN m2.d : m2.d[x].minr = tmin}}
-        counted == sn.refused = 0 /\ s.cfg.haslocal = 0
+        counted == sn.refused = 0 /\ s.cfg.haslocal = 0 /\ s.cfg.cache = 0
     IN  (IF sn.best # <<>> /\ tmin # -1 /\ (sn.best[2] # tmin \/ sn.best[1] \notin cands)
          THEN {"C04_TreeBestIsMaxOfHistory"} ELSE {})
    \cup (IF sn.best # <<>> /\ m2.tbest # -1 /\ sn.best[2] > m2.tbest THEN {"C04_Monotone"} ELSE {})
